@@ -110,6 +110,8 @@ func (c sessCfg) mtu() int {
 // per-session monitor
 
 type sessMon struct {
+	seenSn       map[uint32]int64 // first transmission time per sn (guarded by s.mu: only touched inside flush)
+	firstRetrans string
 	flow    *wireFlow
 	w       *sessWorld
 	name    string
@@ -157,6 +159,18 @@ func (m *sessMon) attach() {
 					}
 					if sg.wnd == 0 {
 						m.zeroAdv.Add(1)
+					}
+					if sg.cmd == IKCP_CMD_PUSH {
+						if m.seenSn == nil {
+							m.seenSn = map[uint32]int64{}
+						}
+						if first, dup := m.seenSn[sg.sn]; dup {
+							if m.firstRetrans == "" {
+								m.firstRetrans = fmt.Sprintf("%s re-sent sn %d at %d ms (first sent at %d ms, rx_rto %d, srtt %d, interval %d)", m.name, sg.sn, m.w.hub.nowMs(), first, k.rx_rto, k.rx_srtt, k.interval)
+							}
+						} else {
+							m.seenSn[sg.sn] = m.w.hub.nowMs()
+						}
 					}
 				}
 			}
@@ -534,6 +548,7 @@ type xfer struct {
 	wPauseAt     int // writer pauses once after this many bytes
 	wPauseFor    time.Duration
 	abort        chan struct{} // closed to cut a scripted reader pause short
+	sndWnd       int           // >0: check the Write admission bound against this send window
 }
 
 func (x *xfer) start() {
@@ -594,6 +609,21 @@ func (x *xfer) writer() {
 		}
 		if n != sz {
 			x.w.viol("C01 Write returned a short count without error", "%s: Write(%d) = %d", x.name, sz, n)
+		}
+		if x.sndWnd > 0 && x.mss > 0 {
+			// a Write is admitted only while fewer than a send window of segments
+			// are pending: afterwards at most snd_wnd-1 plus its own segments
+			segs := 0
+			for _, sl := range slices {
+				segs += (len(sl) + x.mss - 1) / x.mss
+			}
+			x.from.mu.Lock()
+			ws := x.from.kcp.WaitSnd()
+			x.from.mu.Unlock()
+			if ws > x.sndWnd-1+segs {
+				x.w.viol("C04 Write admitted although a send window of segments was already pending", "%s: after Write(%d bytes, %d segments) WaitSnd=%d, snd_wnd=%d", x.name, sz, segs, ws, x.sndWnd)
+			}
+			x.w.rec.count("session_write_admission_checks", 1)
 		}
 		x.written.Add(uint64(n))
 		off += sz
@@ -856,7 +886,7 @@ func runSessScenario(t *testing.T, rec *vrec, sc *sessScenario, rng *vrng, hooks
 	client.mu.Unlock()
 	x1 := &xfer{w: w, name: "client->server", from: client, stream: streamCS, total: sc.BytesCS, wsizes: sc.WSizes, rsizes: sc.RSizes, vec: sc.Vec, msgMode: !sc.CfgC.Stream && !sc.NoMsgCheck, mss: mssC,
 		pauseAt: sc.PauseAt, pauseFor: time.Duration(sc.PauseMs) * time.Millisecond,
-		wPauseAt: sc.WPauseAt, wPauseFor: time.Duration(sc.WPauseMs) * time.Millisecond}
+		wPauseAt: sc.WPauseAt, wPauseFor: time.Duration(sc.WPauseMs) * time.Millisecond, sndWnd: sndWndFor(sc, sc.CfgC)}
 	// the first datagram creates the server session; Accept it, configure it
 	x1.doneW, x1.doneR, x1.abort = make(chan struct{}), make(chan struct{}), make(chan struct{})
 	go x1.writer()
@@ -879,7 +909,7 @@ func runSessScenario(t *testing.T, rec *vrec, sc *sessScenario, rng *vrng, hooks
 	mssS := int(server.kcp.mss)
 	server.mu.Unlock()
 	x2 := &xfer{w: w, name: "server->client", from: server, to: client, stream: streamSC, total: sc.BytesSC, wsizes: sc.WSizes, rsizes: sc.RSizes, vec: sc.Vec, msgMode: !sc.CfgS.Stream && !sc.NoMsgCheck, mss: mssS,
-		wPauseAt: sc.WPauseAt * sc.BytesSC / max(1, sc.BytesCS), wPauseFor: time.Duration(sc.WPauseMs) * time.Millisecond}
+		wPauseAt: sc.WPauseAt, wPauseFor: time.Duration(sc.WPauseMs) * time.Millisecond, sndWnd: sndWndFor(sc, sc.CfgS)}
 	x2.start()
 	res.xs = []*xfer{x1, x2}
 	if hooks.post != nil {
@@ -970,4 +1000,13 @@ func sessBrief(sc *sessScenario) map[string]any {
 	return map[string]any{"case": sc.Case, "part": sc.Part, "cipher": sc.Link.Cipher, "fec": [2]int{sc.Link.D, sc.Link.P}, "net": sc.Net.Name,
 		"loss": fmt.Sprintf("%.2f", sc.Net.Loss), "stream": sc.CfgC.Stream, "mtu": [2]int{sc.CfgC.Mtu, sc.CfgS.Mtu}, "wnd_c": [2]int{sc.CfgC.SndWnd, sc.CfgC.RcvWnd}, "wnd_s": [2]int{sc.CfgS.SndWnd, sc.CfgS.RcvWnd},
 		"bytes": [2]int{sc.BytesCS, sc.BytesSC}, "wsizes": sc.WSizes, "rsizes": sc.RSizes}
+}
+
+// sndWndFor: the send window the Write admission bound is checked against
+// (0: not checked, e.g. when the MSS changes during the run).
+func sndWndFor(sc *sessScenario, c sessCfg) int {
+	if sc.NoMsgCheck {
+		return 0
+	}
+	return c.SndWnd
 }
